@@ -273,6 +273,7 @@ class Unit:
         self.global_decls = {}    # name -> top-level VarDecl
         self.field_decls = {}     # F_name -> FieldDecl
         self.rec_stubs = set()    # functions whose self-recursive calls go to the contract stub <name>__rec
+        self.sid_lits = {}        # literal text -> id
 
     # ---- naming ---------------------------------------------------------------------------
     def add_tu(self, tu):
@@ -374,6 +375,15 @@ class Unit:
         t += ["        ;", "}", "#endif"]
         return "\n".join(t)
 
+    def sid_literal(self, lit):
+        """String literals under the identity model: the empty string is 0, every other distinct
+        literal text gets its own small id (symbolic strings may coincide with any of them)."""
+        if lit in ('""',):
+            return "((sid)0)"
+        if lit not in self.sid_lits:
+            self.sid_lits[lit] = len(self.sid_lits) + 1
+        return "SIDLIT_%d" % self.sid_lits[lit]
+
     def value_struct_decls(self):
         """C struct definitions for records used by value, keyed by the model type after which
         they must be emitted (their field types must exist first; container-of-struct
@@ -435,6 +445,8 @@ class Unit:
         for cn, v in sorted(self.enumerators.items(), key=lambda kv: (kv[0].rsplit('_', 1)[0], kv[1])):
             if cn in self.used_enumerators:
                 out.append("#define %s %d" % (cn, v))
+        for lit, k in sorted(self.sid_lits.items(), key=lambda kv: kv[1]):
+            out.append("#define SIDLIT_%d ((sid)%d) /* %s */" % (k, k, lit.replace("*/", "* /")))
         vs = self.value_struct_decls()
         for sd in vs.pop("__first__", []):
             out.append(sd)
@@ -997,7 +1009,7 @@ class FunctionLowerer:
             if ct == self.T.STR:
                 lit = _string_literal(n)
                 if lit is not None:
-                    return "%s_INIT(%s)" % (self.T.STR.upper(), lit)
+                    return self.u.sid_literal(lit) if ct == "sid" else "%s_INIT(%s)" % (self.T.STR.upper(), lit)
             if ct.startswith("vpair_") and len(args) == 2:
                 a, b = self.pair_ctypes(n)
                 return "{%s, %s}" % (self.const_init(args[0], a), self.const_init(args[1], b))
@@ -1012,7 +1024,7 @@ class FunctionLowerer:
             ect = self.elem_ctype(ct)
             return "{%d, {%s}}" % (len(elems), ", ".join(self.const_init(e, ect) for e in elems))
         if k == "StringLiteral" and ct == self.T.STR:
-            return "%s_INIT(%s)" % (self.T.STR.upper(), n["value"])
+            return self.u.sid_literal(n["value"]) if ct == "sid" else "%s_INIT(%s)" % (self.T.STR.upper(), n["value"])
         if k in ("IntegerLiteral", "FloatingLiteral", "CharacterLiteral", "CXXBoolLiteralExpr", "UnaryOperator",
                  "ImplicitCastExpr", "DeclRefExpr", "BinaryOperator", "CStyleCastExpr", "CXXStaticCastExpr",
                  "CXXFunctionalCastExpr"):
@@ -1253,6 +1265,8 @@ class FunctionLowerer:
         return self.e_CXXConstructExpr(n)
 
     def str_lit(self, lit):
+        if self.T.STR == "sid":
+            return self.u.sid_literal(lit)
         self.u.strings[lit] = True
         return "%s_lit(%s)" % (self.T.STR, lit)
 
@@ -1561,6 +1575,9 @@ class FunctionLowerer:
             fn = fn.replace("_lit", "_s")
         self.note_call("std::%s::%s" % (oct_, name))
         is_lv_ret = name in ("at", "operator[]", "front", "back")
+        if lv is not None and name == "at" and oct_.startswith("vmap_") and len(av) == 1:
+            # map.at(k) as an lvalue expression (no pointer returned through a function)
+            return "VMAP_AT(%s, &(%s), %s)" % (oct_, lv, av[0])
         if lv is not None and name in ("at", "operator[]") and oct_.startswith("vvec_") and len(av) == 1:
             # element access is an lvalue expression, not a pointer returned by a function
             return "VEC_%s(%s, &(%s), %s)" % ("AT" if name == "at" else "INDEX", oct_, lv, av[0])
